@@ -654,6 +654,55 @@ def polya_verification_level():
     return n, bad
 
 
+def cluster_positions_level():
+    """IntronGraph.cluster_polya_positions / cluster_terminal_positions: every assignment of counts 1..3 to <= 3 of five positions next to
+       the intron, with 0-1 annotated end among them, every insertion order of the positions (the order the reads arrive in): the clusters
+       must not depend on that order, and the clusters of the mirrored positions (transcript starts) must be the mirror image"""
+    import src.intron_graph as IG
+    from types import SimpleNamespace
+    L = 1000
+    intron = (100, 200)
+    m_intron = (L - 200, L - 100)
+    grid = (300, 320, 340, 360, 400)
+    bad = []
+    n = 0
+
+    def graph(known_end):
+        g = IG.IntronGraph.__new__(IG.IntronGraph)
+        g.params = SimpleNamespace(apa_delta=50, terminal_position_abs=1, terminal_position_rel=0.1)
+        g.terminal_known_positions = collections.defaultdict(list)
+        g.starting_known_positions = collections.defaultdict(list)
+        if known_end is not None:
+            g.terminal_known_positions[intron] = [known_end]
+            g.starting_known_positions[m_intron] = [L - known_end]
+        return g
+    for k in (1, 2, 3):
+        for ps in itertools.combinations(grid, k):
+            for counts in itertools.product((1, 2, 3), repeat=k):
+                for known in (None, 330, 410):
+                    results = {}
+                    for order in itertools.permutations(range(k)):
+                        n += 1
+                        d_end = {}
+                        d_start = {}
+                        for i in order:
+                            d_end[ps[i]] = counts[i]
+                            d_start[L - ps[i]] = counts[i]
+                        e = graph(known).cluster_polya_positions(d_end, intron, True)
+                        s_ = graph(known).cluster_polya_positions(d_start, m_intron, False)
+                        results[order] = (tuple(sorted(e.items())), tuple(sorted((L - p, c) for p, c in s_.items())))
+                    vals = set(results.values())
+                    if len(set(v[0] for v in vals)) > 1 or len(set(v[1] for v in vals)) > 1:
+                        o1, o2 = sorted(results)[0], next(o for o in sorted(results) if results[o] != results[sorted(results)[0]])
+                        bad.append(("order", (ps, counts, known), "tail positions %s with counts %s, annotated end %s: clusters %s when the positions "
+                                    "arrive in order %s but %s in order %s" % (ps, counts, known, results[o1][0], o1, results[o2][0], o2)))
+                    elif any(v[0] != v[1] for v in vals):
+                        v = next(iter(vals))
+                        bad.append(("mirror", (ps, counts, known), "tail positions %s with counts %s, annotated end %s: end clusters %s, the start "
+                                    "clusters of the mirror image are the mirror image of %s" % (ps, counts, known, v[0], v[1])))
+    return n, bad
+
+
 def thread_ends_level():
     """IntronPathProcessor.thread_ends vs thread_starts on mirrored graphs: last intron (100,200) with every subset of terminal vertices
        out of two polyA and two read-end positions, with / without a following intron, every read end on a grid, trusted or not"""
@@ -708,6 +757,11 @@ def run(ctx):
     for case_, msg in bad_te[:3]:
         ctx.violation("l0:thread-ends-not-mirrored", msg, {"case": [list(case_[0]), list(case_[1]), list(case_[2] or ()), case_[3], case_[4]]})
     ctx.note("L0 thread ends/starts: %d (terminal vertices, read end, trusted) cases, thread_ends vs thread_starts on the mirrored graph" % n_te)
+    n_cp, bad_cp = cluster_positions_level()
+    for kind_, case_, msg in bad_cp[:3]:
+        ctx.violation("l0:tail-clusters-%s" % ("order-dependent" if kind_ == "order" else "not-mirrored"), msg,
+                      {"positions": list(case_[0]), "counts": list(case_[1]), "annotated_end": case_[2]})
+    ctx.note("L0 tail clusters: %d (positions, counts, annotated end, insertion order) cases through the real cluster_polya_positions" % n_cp)
     n_pv, bad_pv = polya_verification_level()
     for case_, msg in bad_pv[:3]:
         ctx.violation("l0:polya-verification-not-mirrored", msg, {"isoform": [list(x) for x in case_[0]], "read": [list(x) for x in case_[1]],
